@@ -87,6 +87,9 @@ fn cpu_ms() -> u64 {
     clock_ms(MAIN_CLOCK.load(Ordering::Relaxed) as libc::clockid_t)
 }
 
+/// wall-clock backstop for processing that waits instead of computing (the CPU budget below catches loops); generous,
+/// because the check runs on machines with load averages of 100 where a 4 s case takes a minute
+const WALL_LIMIT_S: u64 = 200;
 pub const CPU_BUDGET_BASE_MS: u64 = 10000;
 pub const CPU_BUDGET_BYTES_PER_MS: u64 = 2;
 
@@ -201,10 +204,10 @@ fn process(dump: &Minidump<'_, Vec<u8>>, syms: &HashMap<String, Vec<u8>>, opt: u
         if all_utf8 {
             let m: HashMap<String, String> = syms.iter().map(|(k, v)| (k.clone(), String::from_utf8(v.clone()).unwrap())).collect();
             let provider = CountingProvider { inner: Symbolizer::new(string_symbol_supplier(m)) };
-            tokio::time::timeout(Duration::from_secs(40), minidump_processor::process_minidump_with_options(dump, &provider, o)).await
+            tokio::time::timeout(Duration::from_secs(WALL_LIMIT_S), minidump_processor::process_minidump_with_options(dump, &provider, o)).await
         } else {
             let provider = CountingProvider { inner: Symbolizer::new(BytesSupplier { modules: syms.clone() }) };
-            tokio::time::timeout(Duration::from_secs(40), minidump_processor::process_minidump_with_options(dump, &provider, o)).await
+            tokio::time::timeout(Duration::from_secs(WALL_LIMIT_S), minidump_processor::process_minidump_with_options(dump, &provider, o)).await
         }
     };
     let res = rt.block_on(fut);
@@ -505,7 +508,8 @@ fn run_fetch(t: &mut Toks) -> String {
     let mut spec = Spec { cpu: cpu.into(), os: os.into(), ..Default::default() };
     let (ipn, spn) = if cpu == "x86" { ("eip", "esp") } else { ("rip", "rsp") };
     let r: Vec<(String, u64)> = vec![(ipn.into(), ip), (spn.into(), 0x10020), ("rbx".into(), 0x5000), ("rax".into(), 0x5000)];
-    spec.threads.push(ThreadSpec { id: 1, stack_base: 0x10000, stack: vec![0; 64], regs: Some(r.clone()) });
+    // the stack is a region of the memory list like the others: its bytes follow the same function of the address
+    spec.threads.push(ThreadSpec { id: 1, stack_base: 0x10000, stack: (0..64u64).map(|i| byte_at(0x10000 + i)).collect(), regs: Some(r.clone()) });
     spec.exc = Some(ExcSpec { tid: 1, code: 11, flags: 0, addr: 0, nparams: 0, info0: 0, info1: 0, regs: Some(r) });
     for _ in 0..n {
         let (b, len) = (t.u64(), t.u64());
